@@ -210,6 +210,8 @@ impl Inner {
 
         let hdr: &MsgHdr = msg.as_slice().try_into().unwrap();
         let now = Instant::now();
+        #[cfg(sl_crypto_verif)]
+        let now = verif_clock::now(now);
         let expire = now + hdr.ttl();
         let id = *hdr.id();
         let kind = if msg.len() == MESSAGE_HEADER_SIZE {
@@ -257,6 +259,8 @@ impl Inner {
         tx: &mpsc::Sender<Vec<u8>>,
     ) -> Option<Vec<u8>> {
         let now = Instant::now();
+        #[cfg(sl_crypto_verif)]
+        let now = verif_clock::now(now);
         let expire = now + ttl;
 
         // we have a locked state, let's cleanup some old entries
@@ -290,6 +294,35 @@ impl Inner {
         }
 
         None
+    }
+}
+
+/// Verification hook: virtual clock (compiled only with `--cfg sl_crypto_verif`).
+#[cfg(sl_crypto_verif)]
+pub mod verif_clock {
+    use std::sync::Mutex;
+    use std::time::{Duration, Instant};
+
+    static CLOCK: Mutex<Option<(Instant, Duration)>> = Mutex::new(None);
+
+    /// Fix the relay's notion of time at `base + offset` (base is taken at
+    /// the first call) until `clear` is called.
+    pub fn set(offset: Duration) {
+        let mut c = CLOCK.lock().unwrap();
+        let base = c.map(|(b, _)| b).unwrap_or_else(Instant::now);
+        *c = Some((base, offset));
+    }
+
+    /// Return to the real clock.
+    pub fn clear() {
+        *CLOCK.lock().unwrap() = None;
+    }
+
+    pub(super) fn now(real: Instant) -> Instant {
+        match *CLOCK.lock().unwrap() {
+            Some((base, off)) => base + off,
+            None => real,
+        }
     }
 }
 
